@@ -217,6 +217,13 @@ def run(ctx):
     from cnfgen.formula.opb import OPB
     classes = (('CNF', CNF), ('OPB', OPB))
     order_notes = {}
+    ctx.assumptions += [
+        'the d-regular graph of PitfallFormula is an input of the model: the harness draws it with networkx.random_regular_graph '
+        'exactly as pitfall.py does (seeded) and forces that graph during the call; theorems hold for every graph',
+        'PythagoreanTriples int(sqrt(.)) and BinaryMappingVariables int(ceil(log(m,2))) are modelled by exact integer functions '
+        '(DESIGN section 8: equal below 2^52 / 2^29)',
+        'canonical clause sets (sorted set of sorted clauses) are compared for class CNF (SemFacts.cnf_sat_set_ext); the OPB '
+        'constraint list is compared in order']
     for fam in FAMILIES:
         ps = fam['params'](ctx.rng, ctx.tier)
         if 'alternatives' in fam:
